@@ -84,6 +84,11 @@ def run(case, ctx):
     sig = gen_sig(rng, D)
     torus = tuple(bool(v) for v in rng.integers(0, 2, size=D))
     const_dict = {t: cc for t, _, cc in sig if cc > 0}
+    # the forms in which a caller states the same constant layout: sparse dict, dict with an explicit 0 for every type without
+    # constants (what a signature-derived map looks like), the Signature tuple form (sparse / with zeros)
+    const_form = ["sparse-dict", "dict-with-zeros", "signature-tuple", "signature-tuple-with-zeros"][case["i"] % 4]
+    full = {t: cc for t, _, cc in sig}
+    const_arg = {"sparse-dict": const_dict, "dict-with-zeros": full, "signature-tuple": tuple(const_dict.items()), "signature-tuple-with-zeros": tuple(full.items())}[const_form]
     # window state: per type, per channel, list of past frames; constants per type
     win = {t: [[frame(D, sp, t[0], (TCODE[t] * 4 + c) * 50 + j) for j in range(past)] for c in range(cd)] for t, cd, _ in sig if cd > 0}
     consts = {t: [frame(D, sp, t[0], 9000 + TCODE[t] * 10 + c) for c in range(cc)] for t, _, cc in sig if cc > 0}
@@ -107,7 +112,7 @@ def run(case, ctx):
     narrow = case["i"] % 5 == 3 and case["family"] == "ids"
     off = np.float32(0.5 if narrow else 0.0)
     x = geom.MultiImage({t: (jnp.asarray(v.astype(np.int32)) if narrow else (np.asarray(v) if case["i"] % 5 == 2 else jnp.asarray(v))) for t, v in x0.items()}, D, torus)
-    key = {"D": D, "sp": sp, "n": n_steps, "past": past, "sig": sig, "family": case["family"]}
+    key = {"D": D, "sp": sp, "n": n_steps, "past": past, "sig": sig, "family": case["family"], "const_form": const_form}
     viols = []
     seen_inputs = []
     W = {t: rng.integers(-2, 3, size=(cd, cd * past + (const_dict.get(t, 0)))).astype(np.float32) for t, cd, _ in sig if cd > 0}
@@ -134,7 +139,7 @@ def run(case, ctx):
     steps_before = _step_calls[0]
     try:
         use_state = case["i"] % 2 == 0
-        got, aux_out = ml.autoregressive_map(model, x, {"calls": 0} if use_state else None, past, n_steps, const_dict)
+        got, aux_out = ml.autoregressive_map(model, x, {"calls": 0} if use_state else None, past, n_steps, const_arg)
         if use_state:
             if aux_seen != list(range(n_steps)):
                 viols.append(viol("rollout-state-not-threaded", f"the state handed to the model at its successive calls was {aux_seen}, n explicit applications chain it as {list(range(n_steps))}; {key}"))
@@ -205,7 +210,7 @@ def run(case, ctx):
             return geom.MultiImage({t: jnp.einsum("oc,c...->o...", jnp.asarray(W[t]), xin[t]) for t, cd, _ in sig if cd > 0}, D, torus), aux
 
         try:
-            gj = jax.jit(lambda z: ml.autoregressive_map(pure_model, z, None, past, n_steps, const_dict)[0])(x)
+            gj = jax.jit(lambda z: ml.autoregressive_map(pure_model, z, None, past, n_steps, const_arg)[0])(x)
             for t in got.keys():
                 if t not in gj or np.asarray(gj[t]).shape != np.asarray(got[t]).shape or err_exact(gj[t], got[t]) > 1e-4:
                     viols.append(viol("rollout-under-jit", f"jit(autoregressive_map) differs from the eager rollout for block {t}; {key}"))
@@ -214,7 +219,7 @@ def run(case, ctx):
             viols.append(viol(f"rollout-exception-{type(e).__name__}", f"jit rollout raised {type(e).__name__}: {str(e)[:200]}; {key}"))
     nontrivial = (n_steps >= 2 and past >= 2) or bool(const_dict)
     return result(key, viols, nontrivial, evals=len(seen_inputs) + 1, obs={"model_inputs_checked": len(seen_inputs), "autoregressive_step_calls": _step_calls[0] - steps_before},
-                  hist={"D": D, "family": case["family"], "history_dtype": "int32" if narrow else "float32", "n": n_steps, "past": past, "const_types": len(const_dict), "const_only_types": sum(1 for _, cd, cc in sig if cd == 0 and cc > 0), "ntypes": len(sig)}, sample={"key": key})
+                  hist={"D": D, "family": case["family"], "history_dtype": "int32" if narrow else "float32", "n": n_steps, "past": past, "const_form": const_form, "const_types": len(const_dict), "const_only_types": sum(1 for _, cd, cc in sig if cd == 0 and cc > 0), "ntypes": len(sig)}, sample={"key": key})
 
 
 def finalize(tier, results, obs, hist, metas):
